@@ -261,6 +261,11 @@ func aliasProgram(variant int) map[string]string {
 	// the generated code imports the standard "errors", "strings", "fmt" packages: an include of that name is imported as
 	// errors2, and an include called errors2 wants that alias as well -- who gets it must not depend on map order
 	names := []string{"errors", "errors2", "errors3", "strings", "strings2", "fmt", "fmt2"}
+	if variant >= 2 {
+		// includes whose names (and so the import paths of their packages) differ in case only: no ordering of the
+		// import block may fold case, or the two tie
+		names = []string{"Shapes", "shapes", "SHAPES", "Errors", "errors", "fmt", "Fmt"}
+	}
 	var sb strings.Builder
 	for _, n := range names {
 		files["/v/"+n+".thrift"] = fmt.Sprintf("exception Failure { 1: optional string why }\nstruct Item { 1: optional i32 v }\n")
@@ -270,9 +275,10 @@ func aliasProgram(variant int) map[string]string {
 		// nothing but the service refers to the includes
 		sb.WriteString("struct Local { 1: required string name, 2: optional list<string> tags }\n")
 	} else {
-		sb.WriteString("struct Local { 1: required string name, 2: optional strings2.Item b }\n")
+		sb.WriteString(fmt.Sprintf("struct Local { 1: required string name, 2: optional %s.Item b, 3: optional %s.Item c }\n", names[4], names[1]))
 	}
-	sb.WriteString("service Svc { errors.Item get(1: errors2.Item a, 2: errors3.Item b, 3: strings.Item c, 4: strings2.Item d, 5: fmt.Item e, 6: fmt2.Item f) throws (1: errors2.Failure x) }\n")
+	fmt.Fprintf(&sb, "service Svc { %s.Item get(1: %s.Item a, 2: %s.Item b, 3: %s.Item c, 4: %s.Item d, 5: %s.Item e, 6: %s.Item f) throws (1: %s.Failure x) }\n",
+		names[0], names[1], names[2], names[3], names[4], names[5], names[6], names[1])
 	files["/v/root.thrift"] = sb.String()
 	return files
 }
@@ -380,7 +386,7 @@ func cmdC10(args []string) error {
 		}
 	}
 	if *big > 0 {
-		for v := 0; v < 2; v++ {
+		for v := 0; v < 4; v++ {
 			files := aliasProgram(v)
 			for _, o := range optSets[:2] {
 				for i := 0; i < 4**runs; i++ {
